@@ -166,17 +166,22 @@ def marshalG2M : Option (Nat × Nat × Nat × Nat) → Bytes
 /-- what `UnmarshalBinary` stores for a coordinate it read -/
 def storeCoord (x : Nat) : Nat := montEncode x
 
-/-- `pdkg.go decodePubKey`: `MarshalBinary` then bytes `32i+1 .. 32i+33` (i = 0..3) as big-endian
-numbers; slicing a 1-byte identity encoding panics (F12) -/
+/-- `pdkg.go decodePubKey` (as repaired by /repo ae5b22f): `MarshalBinary`, then — only when the encoding has at
+least `32*4+1` bytes — bytes `32i+1 .. 32i+33` (i = 0..3) as big-endian numbers; a shorter encoding (the point at
+infinity marshals to ONE byte) is the error "public key is the point at infinity" (`.err .short`: the length
+check failed), no longer a slice panic -/
 def decodePubKey (enc : Bytes) : Out (List Nat) :=
-  match sliceRange enc 1 33, sliceRange enc 33 65, sliceRange enc 65 97, sliceRange enc 97 129 with
-  | .ok a, .ok b, .ok c, .ok d => .ok [beNat a, beNat b, beNat c, beNat d]
-  | _, _, _, _ => .panic "slice bounds out of range"
+  if enc.length < 32 * 4 + 1 then .err .short
+  else
+    match sliceRange enc 1 33, sliceRange enc 33 65, sliceRange enc 65 97, sliceRange enc 97 129 with
+    | .ok a, .ok b, .ok c, .ok d => .ok [beNat a, beNat b, beNat c, beNat d]
+    | _, _, _, _ => .panic "slice bounds out of range"
 
-/-- `vss.go Signature.ToBigInt`: `Signature[0:32]`, `Signature[32:]` -/
+/-- `vss.go Signature.ToBigInt` (as repaired by /repo 6bcc55e): fewer than 32 bytes leave both numbers zero;
+else `Signature[0:32]`, `Signature[32:]` (EVERYTHING after byte 32: a 65-byte value puts 33 bytes into y) -/
 def sigToBigInt (sig : Bytes) : Out (Nat × Nat) :=
-  if 32 ≤ sig.length then .ok (beNat (sig.take 32), beNat (sig.drop 32))
-  else .panic "slice bounds out of range"
+  if sig.length < 32 then .ok (0, 0)
+  else .ok (beNat (sig.take 32), beNat (sig.drop 32))
 
 
 /-! ### representation level (`Model/CodecRep.lean` at the number-level Montgomery functions of `Model/Bn256.lean`):
